@@ -123,7 +123,18 @@ func runC13(t *testing.T, tape *sim.Tape, tier string) *Outcome {
 		var items [][]byte
 		for i := 0; i < n; i++ {
 			r := scopedReq{Select: -1}
-			switch k := tape.Draw(10, "kind"); {
+			switch k := tape.Draw(11, "kind"); {
+			case k == 10:
+				// server-wide configuration written by this connection: nobody's connection state may move
+				switch {
+				case pwRequired && tape.Draw(2, "cfgpw") == 1:
+					r.Args = []string{"CONFIG", "SET", "requirepass", []string{pw, "another-password"}[tape.Draw(2, "cfgpwval")]}
+				case tape.Draw(2, "cfgget") == 1:
+					r.Args = []string{"CONFIG", "GET", []string{"requirepass", "port", "databases"}[tape.Draw(3, "cfgkey")]}
+				default:
+					r.Args = []string{"CONFIG", "SET", []string{"databases", "maxclients", "timeout"}[tape.Draw(3, "cfgkey")], fmt.Sprint(tape.Draw(20, "cfgval"))}
+				}
+				o.stat("config_commands", 1)
 			case k < 3:
 				db := tape.Draw(16, "db")
 				r.Args, r.Select = []string{"SELECT", fmt.Sprint(db)}, db
@@ -186,6 +197,9 @@ func runC13(t *testing.T, tape *sim.Tape, tier string) *Outcome {
 				if r.Select >= 0 && auth && !v.Equal(resp.St("OK")) {
 					o.violate("c13:select-refused", "%s: valid SELECT answered %s", sc.c.Name, v)
 				}
+				if r.Data && auth && v.K == resp.Error && strings.Contains(strings.ToLower(string(v.S)), "auth") {
+					o.violate("c13:authorized-refused", "%s request %d %q answered %s although the connection's own history authorized it; history %v", sc.c.Name, i, r.Args, v, scopedHist(sc, i))
+				}
 				if r.Data && !auth && v.K != resp.Error {
 					o.violate("c13:unauthorized-answered", "%s request %d answered %s before its own AUTH", sc.c.Name, i, v)
 				}
@@ -238,7 +252,7 @@ func init() {
 	register(&Check{
 		ID: "C13", Bubble: true, Run: runC13,
 		Runs:   map[string]int{"quick": 16000, "thorough": 500000},
-		Rule:   "a case is one run of the full server (with or without a required password) and 2..8 connections that dial, send 2..10 (thorough ..20) requests over {SELECT valid/invalid/missing, AUTH right/wrong, PING, data commands} and close at seeded moments, interleaved at byte-delivery and handler-entry granularity with a swarm-chosen bias towards staying on one connection; inside every handler call conn.Database(), IsAuthrized(), the per-connection sync.Map token and the *redis.Conn identity are compared with that connection's own history; distinct = distinct (shape, order in which handler calls of the connections interleaved) signatures",
+		Rule:   "a case is one run of the full server (with or without a required password) and 2..8 connections that dial, send 2..10 (thorough ..20) requests over {SELECT valid/invalid/missing, AUTH right/wrong, PING, data commands, CONFIG SET/GET incl. CONFIG SET requirepass when a password is required} and close at seeded moments, interleaved at byte-delivery and handler-entry granularity with a swarm-chosen bias towards staying on one connection; inside every handler call conn.Database(), IsAuthrized(), the per-connection sync.Map token and the *redis.Conn identity are compared with that connection's own history; distinct = distinct (shape, order in which handler calls of the connections interleaved) signatures",
 		Real:   []string{"redis.Server accept loop, connection goroutines, SELECT/AUTH executors, redis.Conn state, connection registry"},
 		Stub:   []string{"network: simulated", "handler: recording double (parks at entry)"},
 		Assume: []string{"negative database indexes are not generated"},
